@@ -42,7 +42,7 @@ def _solve_bounded_lp(c: Any, a_ub: Any, b_ub: Any) -> Any:
         # an optimum rebuilt by the presolve from astronomically large variable values can be far off: the
         # dual objective must agree with it
         dual = float(np.dot(res["ineqlin"]["marginals"], b_ub))
-        trusted = abs(dual - res["fun"]) <= 1e-6 * (1 + abs(res["fun"]))  # noqa: WPS432 magic number
+        trusted = abs(dual - res["fun"]) <= 1e-9 * (1 + abs(res["fun"]))  # noqa: WPS432 magic number
     if not trusted:
         res = linprog(c=c, A_ub=a_ub, b_ub=b_ub, bounds=(None, None), options={"presolve": False})
     return res
